@@ -13,7 +13,8 @@ two engine objects on one library) over `Model/Sampler.lean`.  In the model a ca
 faults (use of a non-live object, double delete, output buffer overflow).
 
 What holds and what does not (both shown here):
-* every clause holds for histories of ONE engine object with valid scripts, in any order of calls (every native
+* every clause holds for histories of ONE engine object with valid scripts, in any order of calls, under the two
+  external assumptions named in `every_call_returns` (every native
   entry point first tests `global_algo_freed`, so calls on a released engine return "finished" / nothing);
 * `independent` is FALSE (two objects share the native simulation): negation witness below — recorded known finding.
 (Two defects found with this check were fixed in the repository: calls on a released engine crashed — 3624ce1;
@@ -67,15 +68,32 @@ theorem wrapper_text :
 
 /-! ## 2. every call returns -/
 
-/-- Full statement: for every valid script every lifecycle call returns.
-PARTIAL: proved, as "no call faults", for ALL histories of one engine object whose scripts are valid
-(`Respecting`: marshalling does not raise) — any order of calls, including calls on a released engine.
-Missing: termination of the native loops inside one step and of the initial-state redistribution loop is not
-modelled here (the step is an abstract total function; the redistribution loop is C14's `redist_progress`);
-the harness observes it with time-outs. -/
-theorem every_call_returns_partial (h : List (Call σ ω)) (hr : Respecting false h) :
-    ∀ ob ∈ ((World.boot : World σ ω).runHist (h.map fun c => (Obj.A, c))).2, ob ≠ Obs.fault :=
-  respecting_no_fault h false _ boot_good hr
+/-- For every valid script every lifecycle call returns (with a value: no fault, no hang) — for ALL histories of one
+engine object, any order of calls including calls on a released engine — given the two external assumptions, which
+are explicit in `Respecting` (through `stepLive`), per script that is set up:
+* `initReturns`  — the initial-state redistribution loop of `GenerateStochasticDistribution` terminates
+                   (C14's hypothesis `redist_progress`);
+* `stepReturns`  — every `std::poisson_distribution<int>` call of the run returns (size assumption: amounts and
+                   Poisson means stay below 2³¹).
+Everything else the calls do is total in the model: `Iterate` is a total function, `iterate_n` / `run` are finite
+compositions of it (`loops_are_finite`), the export loops are bounded by the sizes. -/
+theorem every_call_returns (h : List (Call σ ω)) (hr : Respecting false h) :
+    ∀ ob ∈ ((World.boot : World σ ω).runHist (h.map fun c => (Obj.A, c))).2, ob.returned :=
+  respecting_returns h false _ boot_good hr
+
+/-- the assumptions are needed: a script whose redistribution loop does not terminate hangs `setup`, one whose Poisson
+calls do not return hangs the first drive call (the model's rendering of the two assumptions) -/
+def hangInit : Setup Nat Nat :=
+  { spaceType := 0, cfg := { policy := 1, tSamples := [], interval := 1, tMax := 1 }, algo := { step := fun n => some (n + 1, 1), obs := id },
+    x0 := 0, stateSize := 1, raises := false, initReturns := false }
+def hangStep : Setup Nat Nat :=
+  { spaceType := 0, cfg := { policy := 1, tSamples := [], interval := 1, tMax := 1 }, algo := { step := fun n => some (n + 1, 1), obs := id },
+    x0 := 0, stateSize := 1, raises := false, stepReturns := false }
+
+theorem external_assumptions_needed :
+    ((World.boot : World Nat Nat).runHist [(.A, .setup hangInit)]).2 = [.hang] ∧
+    ((World.boot : World Nat Nat).runHist [(.A, .setup hangStep), (.A, .isComplete), (.A, .iterate)]).2 = [.unit, .bool false, .hang] := by
+  constructor <;> decide +kernel
 
 /-- `iterate_n` is `n` times `Iterate()` and `run` is `iterate_n` for the number of iterations the wall clock
 allows: both are finite compositions of the (total) `Iterate` -/
@@ -117,12 +135,12 @@ theorem complete_sticky (A : Algo σ ω) (cfg : SamplerCfg) (s : SimSt σ ω) (h
 /-! ## 5. the status refers to the current set-up -/
 
 /-- right after a set-up of a valid script `is_complete()` is `false`, whatever happened before -/
-theorem status_reset_by_setup (w : World σ ω) (o : Obj) (sc : Setup σ ω) (hc : w.crashed = false) :
+theorem status_reset_by_setup (w : World σ ω) (o : Obj) (sc : Setup σ ω) (hc : w.crashed = false) (hi : sc.initReturns = true) :
     ((w.call o (.setup sc)).1.call o .isComplete).2 = .bool false := by
   by_cases hr : sc.raises = true
   · rw [call_setup_raises w o sc hc hr, call_isComplete _ _ (by rw [setObj_crashed]; exact hc), obj_setObj]; rfl
   · simp only [Bool.not_eq_true] at hr
-    rw [call_setup_ok w o sc hc hr]
+    rw [call_setup_ok w o sc hc hr hi]
     rw [call_isComplete _ _ (by show (w.setObj o _).crashed = false; rw [setObj_crashed]; exact hc)]
     cases o <;> rfl
 
@@ -170,13 +188,13 @@ theorem finalize_idempotent (live : Bool) (w : World σ ω) (hg : Good live w) (
 finalized or not, on this or another engine object), a history that starts with `setup` of a valid script
 observes exactly the same values -/
 theorem setup_after_finalize_clean (w1 w2 : World σ ω) (h1 : w1.crashed = false) (h2 : w2.crashed = false)
-    (sc : Setup σ ω) (hr : sc.raises = false) (rest : List (Call σ ω)) :
+    (sc : Setup σ ω) (hr : sc.raises = false) (hi : sc.initReturns = true) (rest : List (Call σ ω)) :
     (w1.runHist ((Call.setup sc :: rest).map fun c => (Obj.A, c))).2 =
     (w2.runHist ((Call.setup sc :: rest).map fun c => (Obj.A, c))).2 := by
   simp only [List.map_cons, runHist]
-  have hrel := setup_rel w1 w2 sc h1 h2 hr
+  have hrel := setup_rel w1 w2 sc h1 h2 hr hi
   have h0 : (w1.call .A (.setup sc)).2 = (w2.call .A (.setup sc)).2 := by
-    rw [call_setup_ok w1 _ _ h1 hr, call_setup_ok w2 _ _ h2 hr]
+    rw [call_setup_ok w1 _ _ h1 hr hi, call_setup_ok w2 _ _ h2 hr hi]
   rw [h0, runHist_rel rest _ _ hrel]
 
 /-! ## 8. independence -/
@@ -196,6 +214,8 @@ theorem other_object_keeps_wrapper (w : World σ ω) (c : Call σ ω) : (w.call 
         | live m => rw [onSim_live w d f m hfr hp]; exact hf m
         | null => rw [onSim_null w d f hfr hp]; rfl
         | dangling => rw [onSim_dangling w d f hfr hp]; rfl
+    have hdr : ∀ (m : NSim σ ω) (r : SimSt σ ω × Bool), (w.driveIf .B m r).1.a = w.a := by
+      intro m r; unfold driveIf; split <;> rfl
     have hout : ∀ m, (w.outputOf .B m).1.a = w.a := by
       intro m
       unfold outputOf
@@ -211,13 +231,16 @@ theorem other_object_keeps_wrapper (w : World σ ω) (c : Call σ ω) : (w.call 
     | setup sc =>
       by_cases hr : sc.raises = true
       · rw [call_setup_raises w _ _ hc hr]; rfl
-      · simp only [Bool.not_eq_true] at hr; rw [call_setup_ok w _ _ hc hr]; rfl
-    | iterate => rw [call_iterate w _ hc]; exact hon _ _ rfl (fun m => rfl)
+      · simp only [Bool.not_eq_true] at hr
+        by_cases hi : sc.initReturns = true
+        · rw [call_setup_ok w _ _ hc hr hi]; rfl
+        · simp only [Bool.not_eq_true] at hi; rw [call_setup_hangs w _ _ hc hr hi]; rfl
+    | iterate => rw [call_iterate w _ hc]; exact hon _ _ rfl (fun m => hdr m _)
     | iterateN n =>
       by_cases hn : n ≤ 0
       · rw [call_iterateN_nonpos w _ _ hc hn]
-      · rw [call_iterateN_pos w _ _ hc hn]; exact hon _ _ rfl (fun m => rfl)
-    | run k => rw [call_run w _ _ hc]; exact hon _ _ rfl (fun m => rfl)
+      · rw [call_iterateN_pos w _ _ hc hn]; exact hon _ _ rfl (fun m => hdr m _)
+    | run k => rw [call_run w _ _ hc]; exact hon _ _ rfl (fun m => hdr m _)
     | sample => rw [call_sample w _ hc]; exact hon _ _ rfl (fun m => rfl)
     | getProgress => rw [call_getProgress w _ hc]; exact hon _ _ rfl (fun m => rfl)
     | isComplete => rw [call_isComplete w _ hc]
@@ -235,12 +258,12 @@ theorem other_object_keeps_wrapper (w : World σ ω) (c : Call σ ω) : (w.call 
 PARTIAL: it holds when the live intervals do not overlap — operations on B (any, as long as the process
 survives them) leave A's wrapper status untouched and change nothing that a later `setup`-started history
 on A observes.  The full statement is false: `not_independent`. -/
-theorem independent_partial (w : World σ ω) (hB : List (Call σ ω)) (sc : Setup σ ω) (hr : sc.raises = false) (rest : List (Call σ ω))
+theorem independent_partial (w : World σ ω) (hB : List (Call σ ω)) (sc : Setup σ ω) (hr : sc.raises = false) (hi : sc.initReturns = true) (rest : List (Call σ ω))
     (hw : w.crashed = false) (hsurv : (w.runHist (hB.map fun c => (Obj.B, c))).1.crashed = false) :
     (w.runHist (hB.map fun c => (Obj.B, c))).1.a = w.a ∧
     ((w.runHist (hB.map fun c => (Obj.B, c))).1.runHist ((Call.setup sc :: rest).map fun c => (Obj.A, c))).2 =
       (w.runHist ((Call.setup sc :: rest).map fun c => (Obj.A, c))).2 := by
-  refine ⟨?_, setup_after_finalize_clean _ _ hsurv hw sc hr rest⟩
+  refine ⟨?_, setup_after_finalize_clean _ _ hsurv hw sc hr hi rest⟩
   clear hsurv hw
   induction hB generalizing w with
   | nil => rfl
